@@ -204,8 +204,11 @@ class SupervisedSimulation(Environment):
         label_type = label_type.lower()
 
         if label_type == "r":
+            #text sources give labels as strings (csv) or as lists of strings (libsvm/manik)
+            tofloat = lambda l: float(l) if isinstance(l,str) else l
+            delist  = lambda l: l[0] if isinstance(l,list) else l
             actions = []
-            reward  = L1Reward
+            reward  = lambda l: L1Reward(tofloat(delist(l)))
             self._params['n_actions'] = float('inf')
 
         elif label_type == "c" and isinstance(first_label, Categorical):
